@@ -1,4 +1,7 @@
 pub mod c02;
+pub mod c12;
+pub mod c14;
+pub mod c17;
 
 use crate::report::Report;
 use crate::Params;
@@ -6,6 +9,9 @@ use crate::Params;
 pub fn run(p: &Params) -> Report {
     match p.property.as_str() {
         "C02" => c02::run(p),
+        "C12" => c12::run(p),
+        "C14" => c14::run(p),
+        "C17" => c17::run(p),
         other => {
             let mut r = Report::new(other);
             r.note("no such monitor");
